@@ -24,6 +24,7 @@ import (
 
 	"github.com/unixpickle/model3d/model2d"
 	"github.com/unixpickle/model3d/model3d"
+	"github.com/unixpickle/model3d/toolbox3d"
 )
 
 func derivedBox(rng *rand.Rand, dim int) (lo, hi [3]int) {
@@ -321,6 +322,338 @@ func genProfilePrims(rng *rand.Rand, n int, asCollider bool) []*primShape {
 	out := []*primShape{}
 	for i := 0; i < 2*n; i++ {
 		out = append(out, genProfilePrim(rng, i, asCollider))
+	}
+	return out
+}
+
+// ---------------------------------------------------------------------------- wrappers around a box (C03)
+//
+//	model3d / model2d .TranslateSolid, ScaleSolid, RotateSolid (quarter turns), VecScaleSolid (incl. negative
+//	components) of a Rect                                          = the image box
+//	toolbox3d.ClampAxisMax / ClampAxisMin / ClampXMax ... ClampZMin of a Rect = the box cut at the plane; of a
+//	Sphere = the ball intersected with its bounding box cut at the plane ("boxsphere")
+//	model3d / model2d .FuncSolid(min, max, f)                       = whatever f says (f = closed box here); the
+//	documented panic on invalid bounds is projected onto the bounds clause (a solid with invalid bounds that was
+//	constructed without a panic is handed to the judge as it is)
+//	toolbox3d.RadialCurve over a straight curve with a constant / linearly vanishing radius = cylinder / cone;
+//	over a closed square loop with constant radius = the points within r of the loop (harness-side definition,
+//	probes within 1e-6 of that boundary undecided)
+
+// quarter turns as integer matrices (right-handed about x, y, z; counter-clockwise in 2-D), row by row
+var quarterTurns = [3][3][3]int{
+	{{1, 0, 0}, {0, 0, -1}, {0, 1, 0}},
+	{{0, 0, 1}, {0, 1, 0}, {-1, 0, 0}},
+	{{0, -1, 0}, {1, 0, 0}, {0, 0, 1}},
+}
+
+func i3mat(m [3][3]int, v [3]int) [3]int {
+	return [3]int{i3dot(m[0], v), i3dot(m[1], v), i3dot(m[2], v)}
+}
+
+// the box spanned by two opposite corners given in quarter units
+func cornerBox4(a, b [3]int) []int {
+	d := make([]int, 6)
+	for i := 0; i < 3; i++ {
+		d[i], d[3+i] = a[i], b[i]
+		if a[i] > b[i] {
+			d[i], d[3+i] = b[i], a[i]
+		}
+	}
+	return d
+}
+
+func q4xy(q [3]int) []float64 { p := q4pt(q); return p[:2] }
+
+func extraOfData(d []int) *[2]pvec {
+	return &[2]pvec{q4pt([3]int{d[0], d[1], d[2]}), q4pt([3]int{d[3], d[4], d[5]})}
+}
+
+// a small box: side lengths 1..2 so that its scaled images stay within the exactly judged probe budget
+func smallBox(rng *rand.Rand, dim int) (lo, hi [3]int) {
+	for i := 0; i < dim; i++ {
+		lo[i] = ri(rng, -2, 1)
+		hi[i] = lo[i] + ri(rng, 1, 2)
+	}
+	return
+}
+
+// scale factors as quarters (the image of an integer box stays on the quarter lattice)
+var wrapScales4 = []int{2, 4, 8, 12, 1, 6}
+var wrapVecScales4 = []int{-8, -4, -2, -1, 2, 4, 8, 12, -6}
+
+const nWrapperSolidKinds = 16
+
+func genWrapperSolid(rng *rand.Rand, kind int) *primShape {
+	var s *primShape
+	switch kind % nWrapperSolidKinds {
+	case 0, 4: // TranslateSolid
+		dim := []int{3, 2}[kind%nWrapperSolidKinds/4]
+		lo, hi := derivedBox(rng, dim)
+		off4 := [3]int{ri(rng, -9, 9), ri(rng, -9, 9), ri(rng, -9, 9)}
+		if dim == 2 {
+			off4[2] = 0
+			s = lazySolid2("model2d.TranslateSolid", fmt.Sprintf("Rect lo=%v hi=%v offset=%v", lo[:2], hi[:2], q4xy(off4)),
+				func() model2d.Solid { return model2d.TranslateSolid(rect2(lo, hi), v2c(q4pt(off4))) })
+		} else {
+			s = lazySolid3("model3d.TranslateSolid", fmt.Sprintf("Rect lo=%v hi=%v offset=%v", lo, hi, q4pt(off4)),
+				func() model3d.Solid { return model3d.TranslateSolid(rect3(lo, hi), v3c(q4pt(off4))) })
+		}
+		s.shape, s.data = "box", cornerBox4(i3add(i3scale(lo, 4), off4), i3add(i3scale(hi, 4), off4))
+	case 1, 5: // ScaleSolid (positive factors: "the new solid is s times larger")
+		dim := []int{3, 2}[kind%nWrapperSolidKinds/4]
+		lo, hi := smallBox(rng, dim)
+		k4 := wrapScales4[rng.Intn(len(wrapScales4))]
+		if dim == 2 {
+			s = lazySolid2("model2d.ScaleSolid", fmt.Sprintf("Rect lo=%v hi=%v s=%v", lo[:2], hi[:2], float64(k4)/4),
+				func() model2d.Solid { return model2d.ScaleSolid(rect2(lo, hi), float64(k4)/4) })
+		} else {
+			s = lazySolid3("model3d.ScaleSolid", fmt.Sprintf("Rect lo=%v hi=%v s=%v", lo, hi, float64(k4)/4),
+				func() model3d.Solid { return model3d.ScaleSolid(rect3(lo, hi), float64(k4)/4) })
+		}
+		s.shape, s.data = "box", cornerBox4(i3scale(lo, k4), i3scale(hi, k4))
+	case 2: // model3d.RotateSolid: 1..3 quarter turns about +-x, +-y, +-z
+		lo, hi := derivedBox(rng, 3)
+		ax, sg, turns := rng.Intn(3), []int{1, -1}[rng.Intn(2)], ri(rng, 1, 3)
+		axis := [3]int{}
+		axis[ax] = sg
+		s = lazySolid3("model3d.RotateSolid", fmt.Sprintf("Rect lo=%v hi=%v axis=%v angle=%d*pi/2", lo, hi, axis, turns),
+			func() model3d.Solid {
+				return model3d.RotateSolid(rect3(lo, hi), v3c(i3f(axis)), float64(turns)*math.Pi/2)
+			})
+		n := turns
+		if sg < 0 {
+			n = 4 - turns
+		}
+		a, b := i3scale(lo, 4), i3scale(hi, 4)
+		for i := 0; i < n; i++ {
+			a, b = i3mat(quarterTurns[ax], a), i3mat(quarterTurns[ax], b)
+		}
+		s.shape, s.data = "box", cornerBox4(a, b)
+	case 6: // model2d.RotateSolid: -3..3 quarter turns, counter-clockwise for positive angles
+		lo, hi := derivedBox(rng, 2)
+		turns := []int{-3, -2, -1, 1, 2, 3}[rng.Intn(6)]
+		s = lazySolid2("model2d.RotateSolid", fmt.Sprintf("Rect lo=%v hi=%v angle=%d*pi/2", lo[:2], hi[:2], turns),
+			func() model2d.Solid { return model2d.RotateSolid(rect2(lo, hi), float64(turns)*math.Pi/2) })
+		a, b := i3scale(lo, 4), i3scale(hi, 4)
+		for i := 0; i < (turns+4)%4; i++ {
+			a, b = i3mat(quarterTurns[2], a), i3mat(quarterTurns[2], b)
+		}
+		s.shape, s.data = "box", cornerBox4(a, b)
+	case 3, 7: // VecScaleSolid, negative components included
+		dim := []int{3, 2}[kind%nWrapperSolidKinds/4]
+		lo, hi := smallBox(rng, dim)
+		v4 := [3]int{4, 4, 4}
+		for i := 0; i < dim; i++ {
+			v4[i] = wrapVecScales4[rng.Intn(len(wrapVecScales4))]
+		}
+		a, b := [3]int{}, [3]int{}
+		for i := 0; i < dim; i++ {
+			a[i], b[i] = lo[i]*v4[i], hi[i]*v4[i]
+		}
+		if dim == 2 {
+			s = lazySolid2("model2d.VecScaleSolid", fmt.Sprintf("Rect lo=%v hi=%v v=%v", lo[:2], hi[:2], q4xy(v4)),
+				func() model2d.Solid { return model2d.VecScaleSolid(rect2(lo, hi), v2c(q4pt(v4))) })
+		} else {
+			s = lazySolid3("model3d.VecScaleSolid", fmt.Sprintf("Rect lo=%v hi=%v v=%v", lo, hi, q4pt(v4)),
+				func() model3d.Solid { return model3d.VecScaleSolid(rect3(lo, hi), v3c(q4pt(v4))) })
+		}
+		s.shape, s.data = "box", cornerBox4(a, b)
+	case 8, 9, 10: // toolbox3d clamps: generic (8), per-axis functions (9), either over a sphere (10)
+		ax, isMax := rng.Intn(3), rng.Intn(2) == 0
+		named := kind%nWrapperSolidKinds == 9 || (kind%nWrapperSolidKinds == 10 && rng.Intn(2) == 0)
+		round := kind / nWrapperSolidKinds
+		switch kind % nWrapperSolidKinds { // every function in turn
+		case 8:
+			isMax = round%2 == 0
+		case 9:
+			ax, isMax = round%3, (round/3)%2 == 0
+		}
+		var lo, hi [3]int
+		var c [3]int
+		r := 0
+		if kind%nWrapperSolidKinds == 10 {
+			c = [3]int{ri(rng, -2, 2), ri(rng, -2, 2), ri(rng, -2, 2)}
+			r = ri(rng, 1, 3)
+			for i := 0; i < 3; i++ {
+				lo[i], hi[i] = c[i]-r, c[i]+r
+			}
+		} else {
+			lo, hi = derivedBox(rng, 3)
+		}
+		// the cut in quarter units: through the solid, on its boundary, or beyond it on either side
+		at4 := ri(rng, 4*lo[ax]-3, 4*hi[ax]+3)
+		at := float64(at4) / 4
+		base := func() model3d.Solid {
+			if r > 0 {
+				return &model3d.Sphere{Center: v3c(i3f(c)), Radius: float64(r)}
+			}
+			return rect3(lo, hi)
+		}
+		fname := fmt.Sprintf("ClampAxis%s", map[bool]string{true: "Max", false: "Min"}[isMax])
+		if named {
+			fname = fmt.Sprintf("Clamp%s%s", []string{"X", "Y", "Z"}[ax], map[bool]string{true: "Max", false: "Min"}[isMax])
+		}
+		desc := fmt.Sprintf("Rect lo=%v hi=%v", lo, hi)
+		if r > 0 {
+			desc = fmt.Sprintf("Sphere c=%v r=%d", c, r)
+		}
+		s = lazySolid3("toolbox3d."+fname, fmt.Sprintf("%s axis=%d at=%v", desc, ax, at), func() model3d.Solid {
+			b := base()
+			if !named {
+				if isMax {
+					return toolbox3d.ClampAxisMax(b, toolbox3d.Axis(ax), at)
+				}
+				return toolbox3d.ClampAxisMin(b, toolbox3d.Axis(ax), at)
+			}
+			fs := map[bool][]func(model3d.Solid, float64) model3d.Solid{
+				true:  {toolbox3d.ClampXMax, toolbox3d.ClampYMax, toolbox3d.ClampZMax},
+				false: {toolbox3d.ClampXMin, toolbox3d.ClampYMin, toolbox3d.ClampZMin},
+			}
+			return fs[isMax][ax](b, at)
+		})
+		d := boxData(lo, hi)
+		if isMax && at4 < d[3+ax] {
+			d[3+ax] = at4
+		}
+		if !isMax && at4 > d[ax] {
+			d[ax] = at4
+		}
+		// (a cut beyond the solid leaves lo > hi on that axis: the exact shape is empty)
+		s.shape, s.data = "box", d
+		if r > 0 {
+			s.shape, s.data = "boxsphere", append(d, 4*c[0], 4*c[1], 4*c[2], 4*r)
+		}
+		s.extra = extraBox(lo, hi, 0)
+	case 11, 12: // FuncSolid
+		dim := []int{3, 2}[kind%nWrapperSolidKinds-11]
+		lo, hi := derivedBox(rng, dim)
+		bad := (kind/nWrapperSolidKinds)%2 == 1
+		badKind := rng.Intn(3)
+		blo, bhi := i3f(lo), i3f(hi)
+		variant := "f=closed box"
+		if bad { // documented: "If the bounds are invalid, FuncSolid() will panic()"
+			a := rng.Intn(dim)
+			switch badKind {
+			case 0:
+				blo[a], bhi[a] = bhi[a], blo[a]
+				variant = "invalid bounds (max < min)"
+			case 1:
+				bhi[a] = math.Inf(1)
+				variant = "invalid bounds (infinite)"
+			default:
+				blo[a] = math.NaN()
+				variant = "invalid bounds (NaN)"
+			}
+		}
+		flo, fhi := i3f(lo), i3f(hi)
+		if dim == 2 {
+			in := func(p model2d.Coord) bool { return p.X >= flo[0] && p.X <= fhi[0] && p.Y >= flo[1] && p.Y <= fhi[1] }
+			s = lazySolid2("model2d.FuncSolid", fmt.Sprintf("lo=%v hi=%v %s", lo[:2], hi[:2], variant), func() (res model2d.Solid) {
+				if bad {
+					// the expected panic leaves the plain box; a solid constructed nevertheless is judged as it is
+					defer func() {
+						if recover() != nil {
+							res = model2d.FuncSolid(v2c(flo), v2c(fhi), in)
+						}
+					}()
+				}
+				return model2d.FuncSolid(v2c(blo), v2c(bhi), in)
+			})
+		} else {
+			in := func(p model3d.Coord3D) bool {
+				return p.X >= flo[0] && p.X <= fhi[0] && p.Y >= flo[1] && p.Y <= fhi[1] && p.Z >= flo[2] && p.Z <= fhi[2]
+			}
+			s = lazySolid3("model3d.FuncSolid", fmt.Sprintf("lo=%v hi=%v %s", lo, hi, variant), func() (res model3d.Solid) {
+				if bad {
+					defer func() {
+						if recover() != nil {
+							res = model3d.FuncSolid(v3c(flo), v3c(fhi), in)
+						}
+					}()
+				}
+				return model3d.FuncSolid(v3c(blo), v3c(bhi), in)
+			})
+		}
+		s.shape, s.data = "box", boxData(lo, hi)
+	case 13, 14: // RadialCurve along a straight segment: constant radius = cylinder, radius falling to 0 = cone
+		p1 := [3]int{ri(rng, -2, 2), ri(rng, -2, 2), ri(rng, -2, 2)}
+		a := randAxis(rng, 3)
+		if i3dot(a, a) > 14 {
+			a = [3]int{a[0] / 2, a[1] / 2, a[2] / 2}
+		}
+		r := ri(rng, 1, 3)
+		steps := []int{1, 2, 4, 8}[rng.Intn(4)]
+		cone := kind%nWrapperSolidKinds == 14
+		s = lazySolid3("toolbox3d.RadialCurve", fmt.Sprintf("straight p1=%v a=%v r=%d cone=%v steps=%d", p1, a, r, cone, steps), func() model3d.Solid {
+			return toolbox3d.RadialCurve(steps, false, func(t float64) (model3d.Coord3D, float64) {
+				rad := float64(r)
+				if cone {
+					rad *= 1 - t
+				}
+				return v3c(pvAdd(i3f(p1), pvScale(i3f(a), t))), rad
+			})
+		})
+		p14 := i3scale(p1, 4)
+		s.shape, s.data = "cyl", []int{p14[0], p14[1], p14[2], a[0], a[1], a[2], 4 * r}
+		if cone {
+			s.shape = "cone"
+		}
+		var lo, hi pvec
+		for i := 0; i < 3; i++ {
+			u := float64(a[i]) / pvNorm(i3f(a))
+			rim := float64(r) * math.Sqrt(math.Max(0, 1-u*u))
+			lo[i] = math.Min(float64(p1[i]), float64(p1[i]+a[i])) - rim
+			hi[i] = math.Max(float64(p1[i]), float64(p1[i]+a[i])) + rim
+		}
+		s.extra = &[2]pvec{lo, hi}
+	default: // RadialCurve around a closed axis-parallel square loop, constant radius
+		c := [3]int{ri(rng, -1, 1), ri(rng, -1, 1), ri(rng, -1, 1)}
+		side := ri(rng, 2, 4)
+		r4 := ri(rng, 1, 6) // quarter units
+		per := []int{1, 2, 4}[rng.Intn(3)]
+		pl := rng.Intn(3) // the loop lies in the plane normal to axis pl
+		u, v := (pl+1)%3, (pl+2)%3
+		corners := [5]pvec{}
+		for i, uv := range [][2]int{{0, 0}, {1, 0}, {1, 1}, {0, 1}, {0, 0}} {
+			p := i3f(c)
+			p[u] += float64(uv[0] * side)
+			p[v] += float64(uv[1] * side)
+			corners[i] = p
+		}
+		rad := float64(r4) / 4
+		curve := func(t float64) (model3d.Coord3D, float64) {
+			t -= math.Floor(t)
+			k := int(math.Floor(t * 4))
+			f := t*4 - float64(k)
+			return v3c(pvAdd(pvScale(corners[k], 1-f), pvScale(corners[k+1], f))), rad
+		}
+		s = lazySolid3("toolbox3d.RadialCurve", fmt.Sprintf("closed square c=%v side=%d plane=%d r=%v steps=%d", c, side, pl, rad, 4*per),
+			func() model3d.Solid { return toolbox3d.RadialCurve(4*per, true, curve) })
+		// "extends in every normal direction to the curve": within rad of the loop
+		s.def = func(p pvec) bool {
+			best := math.Inf(1)
+			for i := 0; i < 4; i++ {
+				d := pvSub(corners[i+1], corners[i])
+				t := math.Max(0, math.Min(1, pvDot(pvSub(p, corners[i]), d)/pvDot(d, d)))
+				best = math.Min(best, pvNorm(pvSub(p, pvAdd(corners[i], pvScale(d, t)))))
+			}
+			return best < rad-1e-6
+		}
+		lo, hi := i3f(c), i3f(c)
+		hi[u] += float64(side)
+		hi[v] += float64(side)
+		s.extra = &[2]pvec{pvSub(lo, pvec{rad, rad, rad}), pvAdd(hi, pvec{rad, rad, rad})}
+	}
+	if s.extra == nil && len(s.data) >= 6 && (s.shape == "box") {
+		s.extra = extraOfData(s.data)
+	}
+	return s
+}
+
+func genWrapperSolids(rng *rand.Rand, n int) []*primShape {
+	out := []*primShape{}
+	for i := 0; i < n*nWrapperSolidKinds; i++ {
+		out = append(out, genWrapperSolid(rng, i))
 	}
 	return out
 }
